@@ -1005,6 +1005,7 @@ func errStrC08(err error) string {
 }
 
 func runC08(r *simrt.Run) {
+	r.WatchLocks() // a lock of the node that is never released is a violation, not a hang
 	t := r.T
 	mode := nomsim.SporkMode(t.Choose(3))
 	w := nomsim.NewWorld(r, nomsim.MockGenesis(mode))
